@@ -161,7 +161,7 @@ theorem specDc_is_AMap_compute [Inhabited V] (m : Spec.AMap K V) (k : K) (f : Op
 
 /-- non-vacuity: a concrete run meets every hypothesis of `C03_C04_writer_linearizable` (a `Store(1, 5)` on the empty
 map, started at the end of `pre`, returning at the end of `mid`) -/
-def exP : Model.Proto.Params Nat := { growThr := fun n => n * 9 / 4, shrinkThr := fun n => n * 3 / 128, bkt := fun _ k => k, minLen := 2, growOnly := false }
+def exP : Model.Proto.Params Nat := { growThr := fun n => n * 9 / 4, shrinkThr := fun n => n * 3 / 128, bkt := fun _ k => k, minLen := 2, growOnly := false, stripes := fun _ => 8 }
 
 example : ∃ (s0 s' : Model.Proto.St Nat Nat),
     Model.Proto.run exP (Model.Proto.init exP)
